@@ -24,6 +24,8 @@
                                                                    ([exit_code_verdict]: result_to_sh / result_to_pfh /
                                                                     MainStepResultTranslatorForUnconditionalSuccess)
       - execution/partial_execution/impl/atc_execution.py          ([act_res]: _register_outcome / _store_exit_code)
+      - execution/partial_execution/impl/executor.py               ([run_case_with], [cleanup_and_finish]: which failure
+                                                                    is reported when [cleanup] fails too)
       - impls/instructions/assert_/process_output                  (exit-code ==, stdout / stderr equals, on result/
                                                                     or -from PROGRAM)
 
@@ -581,22 +583,32 @@ Section Eval.
     tc_assert : list instr;
     tc_cleanup : list instr }.
 
+  (** The phase the reported failure is located in ("In [phase]" of the error report); 0: no failure. *)
+  Definition phase_code (ph : phase) : N :=
+    match ph with PhSetup => 1 | PhAct => 2 | PhBefore => 3 | PhAssert => 4 | PhCleanup => 5 end.
+
   Record result := Res {
     rs_verdict : status;
+    rs_phase : N;                   (* [phase_code] of the phase of the failure that is reported, 0 if none *)
     rs_starts : list pstart;        (* in the order the processes were started *)
     rs_act : option outcome;
     rs_source : option text;
     rs_caps : list (N * text) }.    (* in the order of the capturing instructions *)
 
-  Definition finish (s : status) (st : state) : result :=
-    Res s (rev (w_starts (st_world st))) (st_act st) (st_source st) (rev (st_caps st)).
+  Definition finish (s : status) (ph : N) (st : state) : result :=
+    Res s ph (rev (w_starts (st_world st))) (st_act st) (st_source st) (rev (st_caps st)).
 
-  (** [cleanup] runs after the first failure of an earlier phase; a failure of [cleanup] itself is the verdict *)
-  Definition cleanup_and_finish (fuel : nat) (earlier : status) (c : tcase) (st : state) : res result :=
+  (** execution/partial_execution/impl/executor.py: [cleanup] runs after the first failure of an earlier phase.
+      [_sequence_with_cleanup] (failure in [setup] / [act]) and [_finish_with_cleanup_phase] (after [assert],
+      failed or not): a failure of [cleanup] REPLACES what came before ([swallow = false]).
+      [_continue_from_before_assert]: after a failure in [before-assert] a failure of [cleanup] is SWALLOWED, the
+      before-assert failure is reported ([swallow = true]).  What [cleanup] did before failing happened. *)
+  Definition cleanup_and_finish (fuel : nat) (swallow : bool) (earlier : status) (eph : N) (c : tcase) (st : state)
+    : res result :=
     match exec_phase fuel PhCleanup (tc_cleanup c) st with
     | Err e => Err e
-    | Ok (StPass, st') => Ok (finish earlier st')
-    | Ok (s, st') => Ok (finish s st')
+    | Ok (StPass, st') => Ok (finish earlier eph st')
+    | Ok (s, st') => if swallow then Ok (finish earlier eph st') else Ok (finish s (phase_code PhCleanup) st')
     end.
 
   (** [tbl0]: the symbols defined before the case starts (the builtin symbols; or, for theorems, all the
@@ -616,13 +628,14 @@ Section Eval.
             | Ok (StPass, st3) =>
                 match exec_phase fuel PhAssert (tc_assert c) st3 with
                 | Err e => Err e
-                | Ok (s, st4) => cleanup_and_finish fuel s c st4
+                | Ok (StPass, st4) => cleanup_and_finish fuel false StPass 0 c st4
+                | Ok (s, st4) => cleanup_and_finish fuel false s (phase_code PhAssert) c st4
                 end
-            | Ok (s, st3) => cleanup_and_finish fuel s c st3
+            | Ok (s, st3) => cleanup_and_finish fuel true s (phase_code PhBefore) c st3
             end
-        | Ok (s, st2) => cleanup_and_finish fuel s c st2
+        | Ok (s, st2) => cleanup_and_finish fuel false s (phase_code PhAct) c st2
         end
-    | Ok (s, st1) => cleanup_and_finish fuel s c st1
+    | Ok (s, st1) => cleanup_and_finish fuel false s (phase_code PhSetup) c st1
     end.
 End Eval.
 
